@@ -36,6 +36,11 @@ pub enum Violation {
 	Eku,
 	/// the leaf's issuer declares key usages without keyCertSign
 	KeyCertSign,
+	/// the permitted DNS subtree is the subdomains-only form ".domain" and the leaf names the bare domain
+	PermittedDnsBare,
+	/// NOT a violation: the excluded DNS subtree is ".domain" and the leaf names the bare domain,
+	/// which lies outside it. Both validators must still accept.
+	BareOutsideExcludedDot,
 }
 
 /// Baseline chain (every constraint satisfied) plus the knobs the violations turn.
@@ -61,6 +66,13 @@ pub struct ChainSpec {
 	pub ca_ku: Vec<KuBit>,
 	pub leaf_extra_ekus: Vec<EkuSpec>,
 	pub leaf_eku_empty: bool,
+	/// DNS subtrees are written in the subdomains-only form with a leading period
+	#[serde(default)]
+	pub dns_dot: bool,
+	/// every CA carries a non-empty key usage list without keyCertSign. OpenSSL refuses such issuers
+	/// whatever else holds, so only webpki (which ignores CA key usage) is asked in this mode.
+	#[serde(default)]
+	pub webpki_only_ku: bool,
 	pub violation: Option<Violation>,
 }
 
@@ -86,9 +98,13 @@ fn chain_spec() -> BoxedStrategy<ChainSpec> {
 			prop_oneof![Just(vec![]), Just(vec![5u8]), Just(vec![5u8, 6]), Just(vec![0u8, 5, 6]), Just(vec![5u8, 6, 5]), Just(vec![6u8, 5, 0, 6, 0])],
 			prop_oneof![Just(vec![]), Just(vec![EkuSpec::CodeSigning]), Just(vec![EkuSpec::EmailProtection, EkuSpec::TimeStamping])],
 			prop::bool::weighted(0.25),
+			prop::bool::weighted(0.35),
+			prop::bool::weighted(0.12),
 		),
 		prop_oneof![
 			3 => Just(None),
+			1 => Just(Some(Violation::PermittedDnsBare)),
+			1 => Just(Some(Violation::BareOutsideExcludedDot)),
 			1 => any::<bool>().prop_map(|explicit| Some(Violation::IssuerNotCa { explicit })),
 			1 => Just(Some(Violation::PathLen)),
 			1 => Just(Some(Violation::PathLenIntermediate)),
@@ -103,7 +119,7 @@ fn chain_spec() -> BoxedStrategy<ChainSpec> {
 		],
 	)
 		.prop_map(
-			|((three_level, keys, kids, at, client_purpose, root_path_len, inter_path_len, (nc_on_root, four_level)), (domain, v6, net, prefix, host_bits, ca_ku, leaf_extra_ekus, leaf_eku_empty), violation)| {
+			|((three_level, keys, kids, at, client_purpose, root_path_len, inter_path_len, (nc_on_root, four_level)), (domain, v6, net, prefix, host_bits, ca_ku, leaf_extra_ekus, leaf_eku_empty, dns_dot, webpki_only_ku), violation)| {
 				let width = if v6 { 16 } else { 4 };
 				let prefix = if v6 { prefix } else { (prefix - 1) % 32 + 1 };
 				let four_level = four_level || matches!(violation, Some(Violation::PathLenIntermediate));
@@ -126,6 +142,9 @@ fn chain_spec() -> BoxedStrategy<ChainSpec> {
 					ca_ku,
 					leaf_extra_ekus,
 					leaf_eku_empty,
+					dns_dot: dns_dot || matches!(violation, Some(Violation::PermittedDnsBare) | Some(Violation::BareOutsideExcludedDot)),
+					// the keyCertSign dimension is about OpenSSL's verdict
+					webpki_only_ku: webpki_only_ku && !matches!(violation, Some(Violation::KeyCertSign)),
 					violation,
 				}
 			},
@@ -168,19 +187,21 @@ fn build(c: &ChainSpec, violation: Option<&Violation>) -> Result<Built3, String>
 
 	// name constraints
 	let subnet = SubtreeSpec::Ip(CidrSpec::Prefix { addr: Hex(addr_in(&c.net.0, &vec![0; c.net.0.len()], c.prefix)), prefix: c.prefix, ctor: 0 });
-	let dns = SubtreeSpec::Dns(c.domain.clone());
-	let other_dns = SubtreeSpec::Dns(format!("other-{}", c.domain));
+	let dot = if c.dns_dot { "." } else { "" };
+	let dns = SubtreeSpec::Dns(format!("{dot}{}", c.domain));
+	let other_dns = SubtreeSpec::Dns(format!("{dot}other-{}", c.domain));
 	let mut other_net = c.net.0.clone();
 	other_net[0] ^= 0x80;
 	let other_subnet = SubtreeSpec::Ip(CidrSpec::Prefix { addr: Hex(other_net), prefix: c.net.0.len() as u8 * 8, ctor: 1 });
 	let nc = match violation {
 		// permitted lists always hold both a DNS and an IP subtree so that names of the other kind stay allowed
-		Some(Violation::ExcludedDns) => NcSpec { permitted: vec![], excluded: vec![dns.clone()] },
+		Some(Violation::ExcludedDns) | Some(Violation::BareOutsideExcludedDot) => NcSpec { permitted: vec![], excluded: vec![dns.clone()] },
 		Some(Violation::ExcludedIp) => NcSpec { permitted: vec![], excluded: vec![subnet.clone()] },
 		_ => NcSpec { permitted: vec![dns.clone(), subnet.clone()], excluded: vec![other_dns, other_subnet] },
 	};
 	let leaf_dns = match violation {
 		Some(Violation::PermittedDns) => format!("a.b.{}.invalid", c.domain),
+		Some(Violation::PermittedDnsBare) | Some(Violation::BareOutsideExcludedDot) => c.domain.clone(),
 		_ => format!("a.b.{}", c.domain),
 	};
 	let leaf_ip = match violation {
@@ -189,10 +210,15 @@ fn build(c: &ChainSpec, violation: Option<&Violation>) -> Result<Built3, String>
 	};
 
 	let issuer_is_inter = c.three_level;
+	let ca_ku: Vec<u8> = if c.webpki_only_ku {
+		if c.at % 2 == 0 { vec![0, 6] } else { vec![6] }
+	} else {
+		c.ca_ku.clone()
+	};
 	let mut root = CertSpec::minimal();
 	root.dn = name("rv root");
 	root.kid = c.kids[0].clone();
-	root.key_usages = c.ca_ku.clone();
+	root.key_usages = ca_ku.clone();
 	root.is_ca = match c.root_path_len {
 		None => IsCaSpec::CaUnconstrained,
 		Some(n) => IsCaSpec::CaConstrained(n),
@@ -207,7 +233,7 @@ fn build(c: &ChainSpec, violation: Option<&Violation>) -> Result<Built3, String>
 	let mut inter = CertSpec::minimal();
 	inter.dn = name("rv intermediate");
 	inter.kid = c.kids[1].clone();
-	inter.key_usages = c.ca_ku.clone();
+	inter.key_usages = ca_ku.clone();
 	inter.use_aki = true;
 	inter.is_ca = match c.inter_path_len {
 		None => IsCaSpec::CaUnconstrained,
@@ -223,7 +249,7 @@ fn build(c: &ChainSpec, violation: Option<&Violation>) -> Result<Built3, String>
 	let mut inter2 = CertSpec::minimal();
 	inter2.dn = name("rv intermediate 2");
 	inter2.kid = c.kids[1].clone();
-	inter2.key_usages = c.ca_ku.clone();
+	inter2.key_usages = ca_ku.clone();
 	inter2.use_aki = true;
 	inter2.is_ca = IsCaSpec::CaUnconstrained;
 	let (nb2, na2) = window_around(c.at, 30 * day, 300 * day);
@@ -312,7 +338,15 @@ pub fn check_chain(c: &ChainSpec, info: &mut CaseInfo) -> Result<(), String> {
 	// 1. the baseline satisfies every constraint: both validators accept
 	let base = build(c, None)?;
 	let (o, w) = verdicts(&base, c);
-	if let Err((code, text)) = o {
+	if c.dns_dot {
+		info.class("dns-subtree:leading-dot");
+	}
+	if c.webpki_only_ku {
+		info.class("ca-ku-without-keyCertSign(webpki only)");
+		if o.is_ok() {
+			return Err("OpenSSL accepts a chain whose CAs declare key usages without keyCertSign".into());
+		}
+	} else if let Err((code, text)) = o {
 		return Err(format!("OpenSSL rejects a chain in which every constraint is satisfied: error {code} ({text})"));
 	}
 	if let Err(e) = w {
@@ -335,6 +369,17 @@ pub fn check_chain(c: &ChainSpec, info: &mut CaseInfo) -> Result<(), String> {
 	//    documented semantics cover that dimension
 	let bad = build(c, Some(v))?;
 	let (o, w) = verdicts(&bad, c);
+	if matches!(v, Violation::BareOutsideExcludedDot) {
+		if let Err((code, text)) = o {
+			if !c.webpki_only_ku {
+				return Err(format!("OpenSSL rejects a leaf naming the bare domain although only its subdomains are excluded: error {code} ({text})"));
+			}
+		}
+		if let Err(e) = w {
+			return Err(format!("webpki rejects a leaf naming the bare domain although only its subdomains are excluded: {e}"));
+		}
+		return Ok(());
+	}
 	let issuer_is_anchor = !c.three_level;
 	let webpki_covers = match v {
 		// webpki does not examine the trust anchor's CA flag, validity or key usage
@@ -364,7 +409,7 @@ pub fn check_chain(c: &ChainSpec, info: &mut CaseInfo) -> Result<(), String> {
 pub fn def() -> PropertyDef {
 	PropertyDef {
 		id: "C12",
-		rule: "Chains root -> [intermediate] -> leaf generated by rcgen with a baseline that satisfies every constraint (CA flags, path lengths >= depth, validity windows covering the verification time, permitted DNS + IP subnets containing the leaf's names, excluded subtrees elsewhere, leaf EKU containing the requested purpose or absent, CA key usages empty or containing keyCertSign), and the same chain with exactly one dimension violated (issuer not a CA with and without explicit basicConstraints, path length, time before/after for each certificate, permitted/excluded DNS, permitted/excluded IPv4/IPv6 subnets with prefix lengths 1..32 / 1..128, EKU, keyCertSign). Oracle: OpenSSL X509_verify_cert (explicit time and purpose) and webpki verify_for_usage accept the baseline and reject the violated chain, each for the dimensions its documented semantics cover. Every case is non-trivial (a baseline with constraints present or a single-violation pair).",
+		rule: "Chains root -> [intermediate] -> leaf generated by rcgen with a baseline that satisfies every constraint (CA flags, path lengths >= depth, validity windows covering the verification time, permitted DNS + IP subnets containing the leaf's names, excluded subtrees elsewhere, leaf EKU containing the requested purpose or absent, CA key usages empty or containing keyCertSign), and the same chain with exactly one dimension violated (issuer not a CA with and without explicit basicConstraints, path length, time before/after for each certificate, permitted/excluded DNS in both the plain and the subdomains-only \".domain\" form (a leaf naming the bare domain is outside a permitted \".domain\" and must be rejected, and outside an excluded \".domain\" and must be accepted), permitted/excluded IPv4/IPv6 subnets with prefix lengths 1..32 / 1..128, EKU, keyCertSign). In a 12% share of cases every CA declares key usages without keyCertSign, which OpenSSL must refuse outright and webpki ignores, so that the other dimensions (path lengths in particular) are judged by webpki alone on certificates with that key usage. Oracle: OpenSSL X509_verify_cert (explicit time and purpose) and webpki verify_for_usage accept the baseline and reject the violated chain, each for the dimensions its documented semantics cover. Every case is non-trivial (a baseline with constraints present or a single-violation pair).",
 		assumptions: vec![
 			"OpenSSL and webpki implement RFC 5280 path validation for the dimensions each is asked about",
 			"webpki is not asked about the trust anchor's own CA flag, validity or key usage, which it does not examine",
